@@ -22,6 +22,9 @@ CLAIMS = {
     "C05": ("every executed step of seeded step histories (all 7 algorithms, dt over 4 decades of the fundamental period, random alpha/beta/gamma, arbitrary prior states, switching algorithm and dt between steps, Elastic with Rayleigh damping, Thermal, Beam, WeakForms, ProbeSimu) is judged against an executable model of the documented schemes: corrector relations, discrete equation of motion at the evaluation point on free dofs, weights = derivatives of the evaluation states, evaluation states themselves; offline energy checker over undamped histories; Newton-incremental path against the direct one",
             "loads constant within a step; parameter ranges as accepted by the setters minus singular end points; energy verdict only when round-off leaves a 1e-6 margin",
             "reference-model oracle (executable time-scheme model) at Solve entry/exit + energy trace checker"),
+    "C06": ("complete enumeration (exhaustive: true): every tabulated callable of the 19 Lagrange element types (N and derivative tables 1-4) and of the 4 Hermite families is executed on sympy symbols; the observed polynomials are compared coefficient-wise with the Kronecker property, partition of unity, reproduction of all monomials up to the element order and with the exact derivatives of the observed N; the evaluation path (Get_*_pg for every matrix type, physical gradients on random affine elements) is tied to the tables numerically",
+            "coefficient tolerance 1e-9 relative; observations of executions of the real callables, not a proof about source text",
+            "polynomial-ring execution of the real table callables (identity between polynomials) + evaluation-path monitor"),
 }
 
 
